@@ -37,6 +37,7 @@ def build(spec):
     rng = gen.rng_for(spec["seed"], PROPERTY, i, salt=1)
     est = ["nonparametric", "gaussian", "bootstrap"][i % 3]
     o = dict(estimator=est, feed_n_unexpected=int(gen.choice(rng, [0, 0, 1])), feed_frac_reporting=0.6, B=10,
+             allow_pointer_config=False,
              el_n_units=int(rng.integers(50, 150)))
     if i % 4 == 3:
         o["district"] = True
